@@ -26,7 +26,7 @@ RULE = (
     "equals the model's - in particular no periodic tick after a raise, whatever the verdict; (4) differential: the same "
     "forest with all raises removed gives the same log on CatchScheduler as on the bare TestScheduler and never calls the "
     "handler. Non-trivial: a raise actually executed at depth >= 1 (inside an action scheduled from an action) or inside "
-    "a periodic action. Distinct = distinct case JSON."
+    "a periodic action. Part of the forests are built with >= 2 periodic actions alive together on one CatchScheduler (roots, or siblings created through one handed scheduler) so that one raises while another still ticks - the survivor must tick on exactly as modelled. Every run is fused: a harness action at a statically computed horizon stops the inner scheduler, so never-ending periodic work gives a verdict, not a hang. Distinct = distinct case JSON."
 )
 ASSUMPTIONS = [
     "inner scheduler is a virtual-time TestScheduler (actions never run synchronously inside schedule*), per the property's quantifier",
@@ -121,18 +121,37 @@ def _execute(nodes, verdicts, wrapped):
 
     for n in nodes:
         schedule(n, outer)
+    # Fuse: every correct run is over before `horizon` (static bound: sum of all delays / periods * ticks + the latest
+    # absolute time).  A harness action on the inner scheduler stops the run there, so that periodic work which wrongly
+    # never ends (e.g. a muted action that can no longer dispose itself) yields a verdict instead of a hang.
+    horizon = _horizon(nodes)
+    fused = []
+    inner.schedule_absolute(enc_abs("test", horizon, "num"), lambda s, st_=None: (fused.append(1), inner.stop()))
     runaway = None
-    for _ in range(len(list(_walk(nodes))) + 2):
+    for _ in range(len(list(_walk(nodes))) + 3):
+        if fused:
+            break
         try:
             inner.start()
-            break
         except _Runaway as r:
             runaway = str(r)
             break
         except Exception as ex:  # noqa: BLE001 - whatever escapes start() is recorded and judged by the oracle
             escapes.append(ex)
             inner.stop()
-    return {"log": log, "handled": handled, "escapes": escapes, "raised": raised, "runaway": runaway}
+    return {"log": log, "handled": handled, "escapes": escapes, "raised": raised, "runaway": runaway, "fused": bool(fused)}
+
+
+def _horizon(nodes):
+    total, latest = 0, 0
+    for n, _ in _walk(nodes):
+        if n["how"] == "per":
+            total += n["t"] * (n["stop_at"] + 1)
+        elif n["how"] == "abs":
+            latest = max(latest, n["t"])
+        else:
+            total += n["t"]
+    return total + latest + 5
 
 
 # ------------------------------------------------------------------------------------------------------- model
@@ -147,11 +166,15 @@ def _model(nodes, verdicts):
     log, handled, escapes = [], [], []
     info = {"deep_raise": 0, "periodic_raise": 0, "raise": 0}
 
+    live = set()  # periodic nodes created and not yet stopped
+
     def raise_(tag, node):
         handled.append(tag)
         info["raise"] += 1
         if node["how"] == "per":
             info["periodic_raise"] += 1
+            if live - {node["id"]}:
+                info["overlap"] = 1  # another periodic action is still running while this one raises
         elif node["depth"] >= 1:
             info["deep_raise"] += 1
         if not verdicts[(len(handled) - 1) % len(verdicts)]:
@@ -161,6 +184,7 @@ def _model(nodes, verdicts):
     def schedule(node):
         how, t = node["how"], node["t"]
         if how == "per":
+            live.add(node["id"])
             m.schedule_relative(t, ("tick", node, 1, 10 * node["id"]))
         elif how == "now":
             m.schedule(("act", node))
@@ -185,10 +209,14 @@ def _model(nodes, verdicts):
             _, node, k, state = p
             log.append([node["id"], m.clock, state])
             if k == node["raise_at"]:
+                live.discard(node["id"])
                 raise_(f"p{node['id']}.{k}", node)
                 return  # handled: periodic work stops
             if k >= node["stop_at"]:
+                live.discard(node["id"])
                 return  # disposed itself
+            if info.get("overlap"):
+                info["survivor_tick"] = 1  # a non-raising periodic action keeps ticking after another one raised
             m.schedule_relative(node["t"], ("tick", node, k + 1, state + 1))
 
     for n in nodes:
@@ -219,6 +247,10 @@ def _run(case):
         cls.append("raise-in-nested-action")
     if info["periodic_raise"]:
         cls.append("raise-in-periodic")
+    if info.get("overlap"):
+        cls.append("periodic-raise-while-another-periodic-live")
+    if info.get("survivor_tick"):
+        cls.append("other-periodic-ticks-on-after-raise")
     if exp["escapes"]:
         cls.append("verdict-false")
     if len(exp["handled"]) > len(exp["escapes"]):
@@ -313,7 +345,15 @@ def _one_raise(ops):
 def _cases(depth):
     return st.fixed_dictionaries(
         {
-            "roots": st.lists(st.one_of(_node(depth), _node(depth), _periodic()), min_size=1, max_size=4),
+            "roots": st.one_of(
+                st.lists(st.one_of(_node(depth), _node(depth), _periodic()), min_size=1, max_size=4),
+                # >= 2 periodic actions alive together on one CatchScheduler (plus whatever else)
+                st.tuples(st.lists(_periodic(), min_size=2, max_size=3), st.lists(_node(depth), max_size=2)).map(lambda t: t[0] + t[1]),
+                # ... or created from inside one action through the scheduler handed to it (one shared recursive wrapper)
+                st.tuples(_node(0), st.lists(_periodic(), min_size=2, max_size=3)).map(
+                    lambda t: [dict(t[0], ops=[["child", p] for p in t[1]] + [op for op in t[0]["ops"]])]
+                ),
+            ),
             "verdicts": st.lists(st.booleans(), min_size=1, max_size=4),
         }
     )
